@@ -296,7 +296,7 @@ def judge(ctx, line, level, impl):
             bad = True
     if "det=same" not in tail and k.get("api", "").startswith("d2") and d2_overread(k):
         ctx.violation("tj3DecompressToYUVPlanes8 copies pw > iw bytes per row out of its temporary buffer (heap over-read, "
-                      "model: C11_tmpbuf_copyout_refuted); the bytes read past the rows end up in the caller's planes and differ "
+                      "model: C11_tmpbuf_narrow_rows_refuted); the bytes read past the rows end up in the caller's planes and differ "
                       "from run to run: %s" % describe(line, level), rep, signature="tmpbuf-overread:" + k.get("api"))
         bad = True
     elif "det=same" not in tail:
@@ -309,7 +309,7 @@ def judge(ctx, line, level, impl):
 # ------------------------------------------------------------------ ASan stream
 def asan_stream(ctx, cases):
     """the temporary-buffer paths of the raw-data entry points (C code) under AddressSanitizer:
-    replays the witness of C11_tmpbuf_copyout_refuted and looks for siblings"""
+    replays the witness of C11_tmpbuf_narrow_rows_refuted (regression of F10) and looks for siblings"""
     exe = ctx.cc("c11", ["c11.c"], "asan")
     sub = [c for c in cases if c.startswith("yuv ") and kvs(c).get("api", "")[:2] in ("d2", "cf")]
     i, restarts, nrep = 0, 0, 0
@@ -333,7 +333,7 @@ def asan_stream(ctx, cases):
                     break
             if k.get("api", "").startswith("d2") and d2_overread(k):
                 ctx.violation("AddressSanitizer: %s in %s: tj3DecompressToYUVPlanes8 copies pw > iw bytes per row out of its "
-                              "temporary buffer (C11_tmpbuf_copyout_refuted): %s" % (what[:80], frame, describe(line, "asan-build")),
+                              "temporary buffer (C11_tmpbuf_narrow_rows_refuted): %s" % (what[:80], frame, describe(line, "asan-build")),
                               rep, signature="tmpbuf-overread:" + k.get("api"))
             else:
                 ctx.violation("AddressSanitizer: %s in %s: %s" % (what[:80], frame, describe(line, "asan-build")), rep,
@@ -345,6 +345,10 @@ def asan_stream(ctx, cases):
         i = j + 1
         restarts += 1
     ctx.cov["asan_cases"] = len(sub)
+    try:
+        ctx.cov["tmp_rows_cover_pw"] = "tmp_rows_cover_pw : bool := true" in open(os.path.join(core.COQ, "gen", "GenAlign.v")).read()
+    except OSError:
+        pass
     ctx.cov["asan_reports"] = nrep
 
 
